@@ -259,6 +259,13 @@ def analyze(backend, ops, outs):
                 s.head_at_begin = head
             if s.phase == "started" and out != "bad-state":
                 s.head_at_open = head
+            seek_miss = mem and s.frm != 0 and s.frm < head + 1 - cap
+            if f[0] == "cancel" and out == "returned canceled" and (s.phase == "scanned" or (s.phase == "idle" and mem and (s.frm == 0 or seek_miss))
+                                                                 or (s.phase == "started" and seek_miss)):
+                # the cancelled SyncChain was about to call AddCallback: it registers (replacing whoever holds the id) and removes itself
+                for t in streams.values():
+                    if t is not s and t.addr == s.addr and t.phase == "live" and t.script_end is None:
+                        t.script_end = "replaced"
             for kind, val, extra in parse_tokens(out):
                 if kind == "send":
                     if s.phase in ("started", "scanning"):
